@@ -99,6 +99,7 @@ type FuncCtx struct {
 	loopDepth int
 	permitBareRange bool
 	ceUnroll  int
+	rgClosureDone bool
 	ceDepth   int // nesting depth of loops being unrolled in counterexample mode
 	ceStates  int // loop states explored in counterexample mode (budget)
 	defs      map[string]string
